@@ -88,7 +88,10 @@ func parseShard(b []byte, version int) (items [][]byte, checksum uint32, err err
 
 // backupContent reads a complete backup directory with the independent
 // parser and returns data items in shard order, delta items, and problems.
-func backupContent(dir string) (data [][]byte, delta [][]byte, problems []string) {
+func backupContent(dir string, reused ...bool) (data [][]byte, delta [][]byte, problems []string) {
+	// a directory that held an earlier backup: files are overwritten from offset 0 and not
+	// truncated, so bytes of the earlier, longer file may follow the terminator
+	allowTrailing := len(reused) > 0 && reused[0]
 	version := 0
 	if b, err := os.ReadFile(filepath.Join(dir, "nitro.json")); err == nil {
 		var m map[string]int
@@ -120,6 +123,9 @@ func backupContent(dir string) (data [][]byte, delta [][]byte, problems []string
 				continue
 			}
 			items, sum, err := parseShard(fb, version)
+			if err != nil && allowTrailing && strings.Contains(err.Error(), "after the terminator") {
+				err = nil
+			}
 			if err != nil {
 				problems = append(problems, sub+"/"+f+": "+err.Error())
 			}
